@@ -521,6 +521,649 @@ def shard_parseinfo(col, shard_i, ngrammars, ninputs):
         col.sample(cases[len(cases) // 2].describe())
 
 
+# ------------------------------------------------------------------ parse information of MODEL NODES (object model part)
+# Family: grammars whose rules declare a type (rule::Type) parsed with ModelBuilderSemantics and parseinfo on.  The
+# nodes are built by a semantic action from the rule's AST (its own named elements, the dict-like AST of an inner
+# untyped rule, a list/str, another node) and receive their parseinfo at rule exit (engine.set_parseinfo: the
+# `hasattr(node, 'parseinfo')` branch, not AST.set_parseinfo); untyped rules that hand a node on unchanged overwrite it.
+#   N1 (correspondence): the TYPED grammar run by the implementation vs the proved engine model run on its UNTYPED
+#      TWIN: every typed rule `r::T = e` becomes `r = n_r:r__b ; r__b = e`, so that the twin's rule r returns a fresh
+#      dict exactly where the implementation returns a fresh node, with the same span, and every later overwrite by a
+#      rule that hands it on happens to both alike.  The twin's result is translated (expected_nodes) into the node
+#      tree ModelBuilderSemantics must build and compared field by field (type, rule, pos, endpos, line, endline,
+#      attributes / .ast, Node.text, Node.line).
+#   N2 (oracle, implementation only): the property text on every node and dict of the result.
+NODE_TYPES = ['Alpha', 'Beta', 'Gamma', 'Delta', 'Omega']
+PINFO_KEYS = ('parseinfo', '__parseinfo__')
+ANY = ['any']
+
+
+def typed_grammar_text(g, types) -> str:
+    import enginelib as E
+    head = E.grammar_text({'rules': [], 'directives': g.get('directives', {}), 'keywords': g.get('keywords', [])})
+    out = [head.rstrip('\n')] if head.strip() else []
+    for name, decorators, e in g['rules']:
+        for d in decorators:
+            out.append('@' + d)
+        t = types.get(name)
+        out.append(f'{name}{"::" + t if t else ""} = {E.to_text(e, "top")} ;')
+    return '\n'.join(out) + '\n'
+
+
+def twin_grammar(g, types):
+    rules = []
+    for name, decorators, e in g['rules']:
+        if types.get(name):
+            rules.append((name, list(decorators), ('named', False, 'n_' + name, ('call', name + '__b'))))
+            rules.append((name + '__b', list(decorators), e))
+        else:
+            rules.append((name, list(decorators), e))
+    return {'rules': rules, 'directives': dict(g.get('directives', {})), 'keywords': list(g.get('keywords', []))}
+
+
+def gen_typed_grammar(rng):
+    """A grammar of enginegen + the shapes through which nodes travel: typed rules over their own named elements, over
+    the AST of an inner rule (lone reference, @:ref between tokens), rules that hand the result of another rule on
+    (lone reference, choice of references, @:ref between tokens), nodes inside dicts and lists."""
+    import enginegen as G
+    cfg = G.GenCfg(names=0.25, overrides=0.10, dots=0.0, skipto=0.0, consts=0.0, max_rules=5, upper_rules=0.1)
+    g = G.gen_grammar(rng, cfg, depth=rng.choice([2, 3]))
+    names = [n for n, _, _ in g['rules']]
+    rules = []
+    for i, (n, d, e) in enumerate(g['rules']):
+        later = names[i + 1:]
+        r = rng.random()
+        if later and r < (0.8 if i == 0 else 0.45):
+            a = ('call', later[0] if rng.random() < 0.5 else rng.choice(later))
+            b = ('call', rng.choice(later))
+            lt, rt = rng.choice([('[', ']'), ('x', 'c'), ('(', ')'), ('if', ',')])
+            shape = rng.choice(['ref', 'over', 'over', 'choice', 'overchoice', 'named', 'list', 'refvoid', 'over2'])
+            if shape == 'ref':
+                e = a
+            elif shape == 'over':
+                e = ('seq', [('tok', lt), ('over', False, a), ('tok', rt)])
+            elif shape == 'choice':
+                e = ('choice', [a, b, ('tok', 'b')])
+            elif shape == 'overchoice':
+                e = ('choice', [('seq', [('tok', lt), ('over', False, a), ('tok', rt)]), b])
+            elif shape == 'named':
+                e = ('seq', [('named', False, 'v', a), ('named', rng.random() < 0.4, 'm', ('opt', ('seq', [('tok', ','), b])))])
+            elif shape == 'list':
+                e = ('seq', [('tok', lt), ('rep', rng.random() < 0.5, ('tok', ',') if rng.random() < 0.5 else None, False, a),
+                             ('tok', rt)])
+            elif shape == 'refvoid':
+                e = ('seq', [a, 'void'])
+            else:
+                e = ('seq', [('over', False, a), ('tok', rt)])
+        elif r < 0.75:
+            e = ('named', False, 'val', ('group', e))
+        if i > 0 and rng.random() < 0.15:
+            e = ('seq', [('named', False, 'opt', ('opt', ('tok', 'zz'))), e])
+        if i > 0 and rng.random() < 0.15:
+            d = list(d) + ['nomemo']        # never served from the memo cache: every invocation builds its own node
+        rules.append((n, d, e))
+    g['rules'] = rules
+    types = {}
+    for n in names:
+        if rng.random() < 0.55:
+            t = rng.choice(NODE_TYPES)
+            if rng.random() < 0.15:
+                t += '::' + rng.choice(['BaseOne', 'BaseTwo'])
+            types[n] = t
+    if not types:
+        types[rng.choice(names)] = rng.choice(NODE_TYPES)
+    return g, types
+
+
+def _passes(e, rules_of, memo):
+    """rule names whose result may be the WHOLE value of e (an over-approximation)."""
+    from enginelib import kind
+    k = kind(e)
+    if k == 'call':
+        return {e[1]}
+    if k in ('seq', 'choice'):
+        out = set()
+        for x in e[1]:
+            out |= _passes(x, rules_of, memo)
+        return out
+    if k in ('group', 'skipgroup', 'opt', 'skipto'):
+        return _passes(e[1], rules_of, memo)
+    if k == 'over':
+        return _passes(e[2], rules_of, memo)
+    if k == 'named':
+        return _passes(e[3], rules_of, memo)     # @:(n:ref): the group's value is still the reference's
+    return set()
+
+
+def returners(g, types):
+    """type name -> the rules that may return a node of that type: the rules that declare it and, transitively, the
+    UNTYPED rules whose whole value may be the result of such a rule."""
+    direct = {n: _passes(e, None, None) for n, _, e in g['rules']}
+    out = {}
+    for r, t in types.items():
+        out.setdefault(t.split('::')[0], set()).add(r)
+    changed = True
+    while changed:
+        changed = False
+        for t, rs in out.items():
+            for n, _, _ in g['rules']:
+                if n not in rs and not types.get(n) and direct[n] & rs:
+                    rs.add(n)
+                    changed = True
+    return out
+
+
+def _info(pi):
+    if pi is None:
+        return None
+    return [pi.rule if isinstance(pi.rule, str) else {'other': type(pi.rule).__name__}, pi.pos, pi.endpos, pi.line, pi.endline]
+
+
+def canon_nodes(v):
+    """canonical form of a result that contains model nodes"""
+    import dataclasses as dc
+    from tatsu.contexts.ast import AST
+    from tatsu.objectmodel import Node
+    if isinstance(v, Node):
+        declared = [f.name for f in dc.fields(v) if f.name not in ('ast', 'ctx', 'parseinfo') and not f.name.startswith('_')]
+        if declared or not hasattr(type(v), '__post_init__') or 'SynthNode' not in [c.__name__ for c in type(v).__mro__]:
+            attrs = {k: canon_nodes(getattr(v, k, None)) for k in declared}
+            style = 'declared'
+        else:
+            attrs = {k: canon_nodes(x) for k, x in vars(v).items()
+                     if not k.startswith('_') and k not in ('ast', 'ctx', 'parseinfo')}
+            style = 'synth'
+        try:
+            text = v.text
+        except Exception as e:  # noqa
+            text = {'exc': type(e).__name__}
+        try:
+            nline = v.line
+        except Exception as e:  # noqa
+            nline = {'exc': type(e).__name__}
+        return {'node': type(v).__name__, 'style': style, 'info': _info(v.parseinfo), 'attrs': dict(sorted(attrs.items())),
+                'ast': canon_nodes(v.ast), 'text': text, 'nline': nline}
+    if isinstance(v, (AST, dict)):
+        out = {}
+        for k, x in v.items():
+            if k not in PINFO_KEYS:
+                out[str(k)] = canon_nodes(x)
+        a, b = v.get('parseinfo'), v.get('__parseinfo__')
+        info = _info(a)
+        if _info(b) != info:
+            info = {'parseinfo': info, '__parseinfo__': _info(b)}
+        return {'dict': dict(sorted(out.items())), 'info': info}
+    if isinstance(v, (list, tuple)):
+        return [canon_nodes(x) for x in v]
+    if isinstance(v, bool):
+        return {'bool': v}
+    if v is None or isinstance(v, (int, str)):
+        return v
+    return {'other': type(v).__name__}
+
+
+def expected_nodes(m, types, text, declared=None):
+    """the twin's result (canonical form of the engine model) -> the node tree the typed grammar must yield.
+    declared: None (synthesized classes: every key of a dict AST becomes an attribute, .ast is cleared) or
+    {type: [field, ...]} (declared classes: the declared fields are filled, .ast keeps the AST)."""
+    if isinstance(m, list):
+        return [expected_nodes(x, types, text, declared) for x in m]
+    if not isinstance(m, dict):
+        return m
+    if 'dict' not in m:
+        if 'tuple' in m:
+            return [expected_nodes(x, types, text, declared) for x in m['tuple']]
+        return m
+    d = m['dict']
+    info = d.get('parseinfo')
+    info = list(info[1:]) if info else None
+    if info and info[0].endswith('__b'):
+        info = ANY          # handed on by the twin's extra rule level: the twin cannot tell
+    keys = [k for k in d if k not in PINFO_KEYS]
+    if len(keys) == 1 and keys[0].startswith('n_') and types.get(keys[0][2:]):
+        t = types[keys[0][2:]].split('::')[0]
+        v = d[keys[0]]
+        out = {'node': t, 'style': 'synth' if declared is None else 'declared', 'info': info}
+        ev = expected_nodes(v, types, text, declared)
+        fields = sorted(declared.get(t, [])) if declared is not None else []
+        if isinstance(ev, dict) and 'dict' in ev:
+            # a dict-like AST: the rule's own named elements, or the AST of an inner untyped rule handed over
+            if declared is None:
+                out['attrs'] = dict(sorted(ev['dict'].items()))
+                out['ast'] = None
+            else:
+                out['attrs'] = {f: ev['dict'].get(f) for f in fields}
+                out['ast'] = {'dict': ev['dict'], 'info': ANY}
+        else:
+            out['attrs'] = {f: None for f in fields}
+            out['ast'] = ev
+        if info is ANY or info is None:
+            out['text'] = ANY
+            out['nline'] = ANY
+        else:
+            out['text'] = text[info[1]:info[2]]
+            out['nline'] = info[3]
+        return out
+    return {'dict': {k: expected_nodes(d[k], types, text, declared) for k in sorted(keys)}, 'info': info}
+
+
+def diff_nodes(exp, obs, path=''):
+    """first difference -> (field class, path, expected, observed) | None"""
+    if exp is ANY:
+        return None
+    if isinstance(exp, dict) and 'node' in exp:
+        if not (isinstance(obs, dict) and 'node' in obs):
+            return ('shape', path, 'node ' + exp['node'], _brief(obs))
+        if exp['node'] != obs['node']:
+            return ('type', path, exp['node'], obs['node'])
+        if exp['info'] is not ANY:
+            if obs['info'] is None:
+                return ('noinfo', path, exp['info'], None)
+            if exp['info'] is None:
+                return ('info', path, None, obs['info'])
+            for i, f in enumerate(('rule', 'pos', 'endpos', 'line', 'endline')):
+                if exp['info'][i] != obs['info'][i]:
+                    return ('info.' + f, path, exp['info'], obs['info'])
+        for f in ('text', 'nline'):
+            if f == 'text' and obs[f] is None:
+                continue        # Node.text gives no text at all: judged by the oracle N2 under its own signature (D7e)
+            if exp[f] is not ANY and exp[f] != obs[f]:
+                return ('accessor.' + f, path, exp[f], obs[f])
+        if sorted(exp['attrs']) != sorted(obs['attrs']):
+            return ('attrs', path, sorted(exp['attrs']), sorted(obs['attrs']))
+        for k in exp['attrs']:
+            r = diff_nodes(exp['attrs'][k], obs['attrs'][k], f'{path}.{k}')
+            if r:
+                return r
+        return diff_nodes(exp['ast'], obs['ast'], path + '.ast')
+    if isinstance(exp, dict) and 'dict' in exp:
+        if not (isinstance(obs, dict) and 'dict' in obs):
+            return ('shape', path, 'dict', _brief(obs))
+        if exp['info'] is not ANY and exp['info'] != obs['info']:
+            return ('dictinfo', path, exp['info'], obs['info'])
+        if sorted(exp['dict']) != sorted(obs['dict']):
+            return ('keys', path, sorted(exp['dict']), sorted(obs['dict']))
+        for k in exp['dict']:
+            r = diff_nodes(exp['dict'][k], obs['dict'][k], f'{path}[{k}]')
+            if r:
+                return r
+        return None
+    if isinstance(exp, list):
+        if not isinstance(obs, list) or len(obs) != len(exp):
+            return ('shape', path, f'list of {len(exp)}', _brief(obs))
+        for i, (a, b) in enumerate(zip(exp, obs)):
+            r = diff_nodes(a, b, f'{path}[{i}]')
+            if r:
+                return r
+        return None
+    if exp != obs:
+        return ('value', path, _brief(exp), _brief(obs))
+    return None
+
+
+def _brief(x):
+    if isinstance(x, dict) and 'node' in x:
+        return 'node ' + x['node']
+    if isinstance(x, dict) and 'dict' in x:
+        return 'dict'
+    if isinstance(x, list):
+        return f'list of {len(x)}'
+    return x
+
+
+def node_oracle(obs, text, g, types, directives):
+    """the property text on every node / dict of an implementation result -> list of (problems, what, info)"""
+    rules = {n for n, _, _ in g['rules']}
+    ret = returners(g, types)
+    found = []
+    notext = []
+
+    def span_problems(info, who):
+        problems = []
+        if info is None:
+            return ['noinfo']
+        if not (isinstance(info, list) and len(info) == 5):
+            return ['info-keys-differ']
+        rule, pos, endpos, line, endline = info
+        if not isinstance(rule, str) or rule not in rules:
+            problems.append('rule')
+        elif who is not None and rule not in ret.get(who, set()):
+            problems.append('rule-never-returns-it')
+        if not (isinstance(pos, int) and isinstance(endpos, int) and 0 <= pos <= endpos <= len(text)):
+            problems.append('offsets')
+            return problems
+        if line != ref_info(text, pos, 'editor')[0]:
+            problems.append('line')
+        if endline != ref_info(text, endpos, 'editor')[0]:
+            problems.append('endline')
+        tokn = isinstance(rule, str) and rule.lstrip('_')[:1].isupper()
+        if not tokn and pos < endpos and text[pos].isspace():
+            problems.append('starts-in-whitespace')
+        if not tokn and pos < endpos and (text.startswith('(*', pos) and 'comments' in directives
+                                          or text.startswith('#', pos) and 'eol_comments' in directives):
+            problems.append('starts-in-comment')
+        return problems
+
+    def go(x, outer):
+        if isinstance(x, list):
+            for y in x:
+                go(y, outer)
+            return
+        if not isinstance(x, dict):
+            return
+        if 'node' in x or 'dict' in x:
+            isnode = 'node' in x
+            info = x['info']
+            # a dict without parseinfo is not a rule's result (the AST of a group with an override, ...): not judged
+            problems = span_problems(info, x['node'] if isnode else None) if isnode or info is not None else []
+            ok_span = isinstance(info, list) and len(info) == 5 and 'offsets' not in problems
+            if isnode and ok_span:
+                if x['text'] is None:
+                    notext.append(info)     # no text at all: reported once, under its own signature
+                elif x['text'] != text[info[1]:info[2]]:
+                    problems.append('Node.text')
+                if x['nline'] != info[3]:
+                    problems.append('Node.line')
+            if ok_span and outer is not None and not (outer[0] <= info[1] and info[2] <= outer[1]):
+                problems.append('outside-enclosing')
+            if problems:
+                found.append((problems, 'node ' + x['node'] if isnode else 'dict', info))
+            inner = (info[1], info[2]) if ok_span else outer
+            if isnode:
+                for y in x['attrs'].values():
+                    go(y, inner)
+                a = x['ast']
+                if isinstance(a, dict) and 'dict' in a:
+                    for y in a['dict'].values():      # the AST a declared node keeps is the inner rule's: not judged itself
+                        go(y, inner)
+                else:
+                    go(a, inner)
+            else:
+                for y in x['dict'].values():
+                    go(y, inner)
+    go(obs, None)
+    return found, notext
+
+
+_typed_models: dict = {}
+
+
+def compile_typed(txt):
+    import tatsu
+    import enginerun as R
+    if txt in _typed_models:
+        return _typed_models[txt]
+    try:
+        m = R.with_timeout(lambda: tatsu.compile(txt, name='G'), 20)
+        if isinstance(m, tuple):
+            m = ('compile-timeout',)
+    except RecursionError:
+        m = ('compile-recursion',)
+    except Exception as e:  # noqa
+        m = ('compile-error', type(e).__name__, str(e)[:200])
+    if len(_typed_models) > 500:
+        _typed_models.clear()
+    _typed_models[txt] = m
+    return m
+
+
+_declared_sems: dict = {}
+
+
+def declared_semantics(txt):
+    """the object model tatsu generates for the grammar (declared node classes) -> (semantics factory, {type: fields})"""
+    import dataclasses as dc
+    import types as pytypes
+    import enginerun as R
+    from tatsu.api import to_python_model
+    if txt in _declared_sems:
+        return _declared_sems[txt]
+    try:
+        src = R.with_timeout(lambda: to_python_model(txt, name='G'), 20)
+        if isinstance(src, tuple):
+            res = ('model-codegen-timeout',)
+        else:
+            mod = pytypes.ModuleType(f'c12_generated_model_{len(_declared_sems)}')
+            sys.modules[mod.__name__] = mod       # dataclasses resolves annotations through sys.modules
+            exec(compile(src, '<generated model>', 'exec'), mod.__dict__)
+            factory = mod.__dict__['GModelBuilderSemantics']
+            fields = {}
+            for name, cls in mod.__dict__.items():
+                if isinstance(cls, type) and dc.is_dataclass(cls) and cls.__module__ == mod.__name__:
+                    fields[name] = [f.name for f in dc.fields(cls)
+                                    if f.name not in ('ast', 'ctx', 'parseinfo') and not f.name.startswith('_')]
+            res = (factory, fields)
+    except Exception as e:  # noqa
+        res = ('model-codegen-error', type(e).__name__, str(e)[:200])
+    if len(_declared_sems) > 500:
+        _declared_sems.clear()
+    _declared_sems[txt] = res
+    return res
+
+
+def run_typed(g, types, text, flavour, settings):
+    """-> (outcome, declared fields | None); outcome = ('ok', canon) | ('fail', None) | ('exc', name) | ('skip', why)"""
+    import enginerun as R
+    from tatsu.exceptions import FailedParse
+    txt = typed_grammar_text(g, types)
+    model = compile_typed(txt)
+    if isinstance(model, tuple):
+        return ('skip', model[0]), None
+    kw = dict(settings)
+    declared = None
+    if flavour == 'synth':
+        kw['asmodel'] = True
+    elif flavour == 'builder':
+        from tatsu.objectmodel.builder import ModelBuilderSemantics
+        kw['semantics'] = ModelBuilderSemantics()
+    else:
+        ds = declared_semantics(txt)
+        if len(ds) != 2 or not callable(ds[0]):
+            return ('skip', ds[0]), None
+        try:
+            kw['semantics'] = ds[0]()
+        except Exception as e:  # noqa
+            return ('skip', 'declared-semantics:' + type(e).__name__), None
+        declared = ds[1]
+
+    def target():
+        try:
+            return ('ok', canon_nodes(model.parse(text, **kw)))
+        except FailedParse:
+            return ('fail', None)
+        except RecursionError:
+            return ('recursion', None)
+        except Exception as e:  # noqa
+            return ('exc', type(e).__name__)
+    return R.with_timeout(target, 3), declared
+
+
+def node_case(mr, g, types, text, flavour, settings):
+    """one case of N1/N2 -> dict(verdict=..., ...)"""
+    import enginelib as E
+    import enginerun as R
+    twin = twin_grammar(g, types)
+    rr = R.run_cases(mr, [R.Case(twin, text, None, E.Settings(**settings))])[0]
+    mo = rr[2]
+    obs, declared = run_typed(g, types, text, flavour, settings)
+    out = {'model': mo, 'impl': obs, 'twin_impl': rr[1], 'n1': None, 'n2': [], 'notext': []}
+    if obs[0] == 'ok':
+        out['n2'], out['notext'] = node_oracle(obs[1], text, g, types, g.get('directives', {}))
+    if mo is None or mo[0] in ('recursion', 'timeout', 'model-error') or obs[0] in ('skip', 'timeout', 'recursion'):
+        out['verdict'] = 'none'
+        return out
+    out['reference'] = 'engine-model'
+    if rr[1] != mo and rr[1][0] in ('ok', 'fail'):
+        # E1 itself does not hold for the twin (that is shard_parseinfo's subject: e.g. the parseinfo of a MEMOIZED result
+        # is overwritten in place by a later invocation that hands it on, even one that is discarded afterwards): the
+        # nodes of the typed grammar must then behave exactly like the dicts of the twin in the implementation
+        mo = rr[1]
+        out['reference'] = 'twin-in-the-implementation'
+    if mo[0] != obs[0]:
+        out['n1'] = ('outcome', '', mo[0], obs[0] if obs[0] != 'exc' else 'exc:' + str(obs[1]))
+    elif mo[0] == 'ok':
+        out['n1'] = diff_nodes(expected_nodes(mo[1], types, text, declared), obs[1])
+    out['verdict'] = 'diff' if out['n1'] else 'same'
+    return out
+
+
+def count_nodes(x):
+    if isinstance(x, list):
+        return sum(count_nodes(y) for y in x)
+    if isinstance(x, dict) and 'node' in x:
+        return 1 + sum(count_nodes(y) for y in x['attrs'].values()) + count_nodes(x['ast'])
+    if isinstance(x, dict) and 'dict' in x:
+        return sum(count_nodes(y) for y in x['dict'].values())
+    return 0
+
+
+def shape_signature(g, types):
+    """which shapes of typed rules the (shrunk) grammar has"""
+    from enginelib import kind, walk
+    tags = set()
+    for n, _, e in g['rules']:
+        ks = {kind(x) for x in walk(e)}
+        if types.get(n):
+            if 'named' in ks:
+                tags.add('typed-own-names')
+            if 'call' in ks and 'named' not in ks:
+                tags.add('typed-over-rule')
+            if 'call' not in ks and 'named' not in ks:
+                tags.add('typed-plain')
+        elif 'call' in ks and 'named' not in ks:
+            tags.add('handing-on')
+    return '+'.join(sorted(tags))
+
+
+def shard_nodes(col, shard_i, ngrammars, ninputs):
+    import enginelib as E
+    import enginegen as G
+    import enginerun as R
+    mr = ModelRun('Engine')
+    rng = col.rng
+    reported = 0
+    last = None
+    notext = None
+    for gi in range(ngrammars):
+        g, types = gen_typed_grammar(rng)
+        both = rng.random() < 0.4
+        if both or rng.random() < 0.25:
+            g['directives']['comments'] = r'\(\*.*?\*\)'
+        if both or rng.random() < 0.25:
+            g['directives']['eol_comments'] = r'#[^\n]*'
+        if rng.random() < 0.2:
+            g['directives']['parseinfo'] = 'True'      # the grammar asks for it instead of the caller
+        gaps = [' ', ' ', '\n', '\r\n', '  ', '\t', '\n\n ']
+        if 'comments' in g['directives']:
+            gaps += [' (* c *) ', '(* c *)']
+        if 'eol_comments' in g['directives']:
+            gaps += [' # e\n', '# e\n']
+        if 'comments' in g['directives'] and 'eol_comments' in g['directives']:
+            gaps += ['(* c *)# e\n', ' (* c *)# e\n ', '# e\n(* c *)']
+        flavours = ['synth', 'builder', 'declared']
+        for ii in range(ninputs):
+            lex = G.sample_sentence(rng, g, g['rules'][0][2])
+            t = G.join_lexemes(rng, lex, gaps=tuple(gaps))
+            t = rng.choice(['', '', ' ', '\n'] + gaps[-2:]) + t + rng.choice(['', '\n', '\r\n', ' \n', '\r'] + gaps[-1:])
+            t = t[:70]
+            settings = {} if 'parseinfo' in g['directives'] else {'parseinfo': True}
+            if rng.random() < 0.2:
+                settings['memoization'] = False
+            flavour = flavours[(gi + ii) % 3] if rng.random() < 0.8 else rng.choice(flavours)
+            res = node_case(mr, g, types, t, flavour, settings)
+            last = {'grammar': typed_grammar_text(g, types), 'text': t, 'flavour': flavour, 'settings': settings}
+            nn = count_nodes(res['impl'][1]) if res['impl'][0] == 'ok' else 0
+            col.case(['nodes', last['grammar'], t, flavour, sorted(settings)], nontrivial=nn > 0)
+            col.count(f'nodes.{flavour}.{res["impl"][0]}' + (':' + str(res['impl'][1]) if res['impl'][0] in ('skip', 'exc') else ''))
+            col.count('nodes.verdict.' + res['verdict'])
+            if res.get('reference'):
+                col.count('nodes.reference.' + res['reference'])
+            if res['impl'][0] == 'ok' and nn:
+                for tag in shape_signature(g, types).split('+'):
+                    col.count('nodes.grammar-has.' + tag)
+            col.count('nodes.nodes', nn)
+            if res['notext'] and notext is None:
+                notext = dict(last, nodes_without_text=res['notext'][:3])
+            col.count('nodes.Node.text=None', len(res['notext']))
+            if res['n1'] or res['n2']:
+                reported += 1
+                small = R.Case(g, t, None, E.Settings(**settings))
+                r2 = res
+                if reported <= 3:
+                    def bad(cc, want1=bool(res['n1']), want2=bool(res['n2'])):
+                        rb = node_case(mr, cc.g, types, cc.text, flavour, settings)
+                        return (want1 and bool(rb['n1'])) or (want2 and bool(rb['n2']))
+                    small = R.shrink_case(small, bad, budget=150)
+                    r2 = node_case(mr, small.g, types, small.text, flavour, settings)
+                used = {n for n, _, _ in small.g['rules']}
+                stypes = {k: v for k, v in types.items() if k in used}
+                rep = {'grammar': typed_grammar_text(small.g, stypes), 'untyped_twin': E.grammar_text(twin_grammar(small.g, stypes)),
+                       'text': small.text, 'flavour': flavour, 'settings': settings, 'impl': r2['impl'],
+                       'engine_model_on_twin': r2['model'], 'twin_in_the_implementation': r2['twin_impl'],
+                       'reference': r2.get('reference'), 'original': last,
+                       'node_case': {'g': small.g, 'types': stypes, 'text': small.text, 'flavour': flavour, 'settings': settings}}
+                if r2['n1']:
+                    f, path, e, o = r2['n1']
+                    col.violation(f'N1:{f}:{shape_signature(small.g, stypes)}',
+                                  f'model node tree differs from the engine model of the untyped twin at {path or "the result"}: '
+                                  f'{f} expected {e!r}, found {o!r}',
+                                  dict(rep, correspondence='N1 model nodes vs engine model of the untyped twin', difference=[f, path, e, o]))
+                if r2['n2']:
+                    problems, what, info = r2['n2'][0]
+                    col.violation('oracle:nodeinfo:' + '+'.join(problems),
+                                  f'parseinfo {info} of a {what} is not that of a rule that returned it / does not delimit its text',
+                                  dict(rep, oracle='parseinfo of model nodes', problems=r2['n2'][:5]))
+    if notext is not None:
+        col.violation('oracle:Node.text:None', 'Node.text of a parsed model node with parseinfo is None instead of text[pos:endpos]',
+                      dict(notext, oracle='Node.text'))
+    if last:
+        col.sample(last)
+
+
+def replay_node_case(chk, nc):
+    """--replay of a violation of N1/N2: the one case again"""
+    mr = ModelRun('Engine')
+    res = node_case(mr, nc['g'], nc['types'], nc['text'], nc['flavour'], nc['settings'])
+    chk.case(['nodes-replay', json.dumps(nc, sort_keys=True, default=str)])
+    rep = {'node_case': nc, 'impl': res['impl'], 'engine_model_on_twin': res['model']}
+    if res['n1']:
+        f, path, e, o = res['n1']
+        chk.violation(f'N1:{f}:{shape_signature(nc["g"], nc["types"])}',
+                      f'model node tree differs from the engine model of the untyped twin at {path or "the result"}: '
+                      f'{f} expected {e!r}, found {o!r}', rep)
+    if res['n2']:
+        problems, what, info = res['n2'][0]
+        chk.violation('oracle:nodeinfo:' + '+'.join(problems),
+                      f'parseinfo {info} of a {what} is not that of a rule that returned it / does not delimit its text', rep)
+    if res['notext']:
+        chk.violation('oracle:Node.text:None', 'Node.text of a parsed model node with parseinfo is None instead of text[pos:endpos]', rep)
+
+
+def object_model_family(chk: Check):
+    chk.rule += (' Object model: random grammars whose rules declare types (own named elements, the AST of an inner rule through a '
+                 'lone reference or @:ref, rules handing a node on, nodes in dicts and lists) x sampled sentences with blanks, line '
+                 'breaks and comments, parsed with asmodel=True / ModelBuilderSemantics() / the generated object model, parseinfo '
+                 'from the caller or from @@parseinfo; non-trivial: the result contains a model node.')
+    chk.trusted += ['N1 expectation: the node tree is derived from the proved engine model run on the untyped twin grammar '
+                    '(r::T = e  ->  r = n_r:r__b ; r__b = e) by expected_nodes(), the harness\'s own statement of what '
+                    'ModelBuilderSemantics builds from an AST (SynthNode: every key an attribute, .ast cleared; declared classes: '
+                    'declared fields, .ast kept)']
+    chk.assumptions += ['parseinfo of an object that the twin\'s extra rule level r__b handed on is not compared in N1 (the oracle N2 '
+                        'still judges it); dicts without parseinfo (ASTs of groups with overrides) are not rule results']
+    rep = json.loads(Path(chk.replay).read_text()) if chk.replay else None
+    if rep is not None:
+        if 'node_case' in rep:
+            replay_node_case(chk, rep['node_case'])
+    else:
+        vlib.run_sharded(chk, shard_nodes, 14, extra=((12, 8) if chk.quick else (80, 12)))
+    chk.obligation('N1: model nodes of typed rules (ModelBuilderSemantics; synthesized and generated node classes) vs the engine '
+                   'model of the untyped twin grammar: type, rule, pos, endpos, line, endline, attributes, Node.text/line',
+                   'correspondence', not any(v['signature'].startswith('N1:') for v in chk.violations))
+    chk.obligation('every model node names a rule that may return it, with offsets that delimit text inside its enclosing node '
+                   'and a line that matches the start offset (implementation only)', 'oracle',
+                   not any(v['signature'].startswith(('oracle:nodeinfo', 'oracle:Node.text')) for v in chk.violations))
+
+
 def main():
     chk = Check(PID)
     chk.rule = ('every string over {a, space, LF, CR} up to length 5 (quick) / 6 (thorough) and random texts up to length 41 '
@@ -573,6 +1216,8 @@ def main():
                            not any(v['signature'].startswith('E1pinfo') for v in chk.violations))
             chk.obligation('parseinfo delimits the consumed text and its line matches the start offset (implementation only)', 'oracle',
                            not any(v['signature'].startswith('oracle:parseinfo') for v in chk.violations))
+        if ok2:
+            object_model_family(chk)      # model nodes of typed rules (N1, N2)
         chk.sample({'text': 'a\r\nb', 'reference': [ref_info('a\r\nb', p, 'editor') for p in range(5)]})
         chk.exhaustive = False
     return chk.finish()
